@@ -45,6 +45,7 @@ func (t *TapSet) onLink(l *simnet.Link) {
 func (t *TapSet) tap(l *simnet.Link, dir int, b []byte) []byte {
 	key := [2]int{l.ID, dir}
 	buf := append(t.bufs[key], b...)
+	var evs []*FrameEvent
 	for {
 		if len(buf) < protocol.HeaderSize {
 			break
@@ -66,17 +67,22 @@ func (t *TapSet) tap(l *simnet.Link, dir int, b []byte) []byte {
 		if dir == 1 {
 			from, to = to, from
 		}
-		ev := &FrameEvent{Seq: simrt.Seq(), Link: l, Dir: dir, From: from, To: to, Type: ftype, Flags: flags, StreamID: sid, Payload: payload}
+		evs = append(evs, &FrameEvent{Seq: simrt.Seq(), Link: l, Dir: dir, From: from, To: to, Type: ftype, Flags: flags, StreamID: sid, Payload: payload})
 		t.Frames++
 		t.ByType[ftype]++
 		if len(payload) > t.MaxPayload {
 			t.MaxPayload = len(payload)
 		}
+	}
+	// the parse state is stored before any callback runs: a callback may stall
+	// the writer for simulated time (a slow write), during which other
+	// goroutines write to other links
+	t.bufs[key] = append([]byte(nil), buf...)
+	for _, ev := range evs {
 		for _, f := range t.OnFrame {
 			f(ev)
 		}
 	}
-	t.bufs[key] = buf
 	return b
 }
 
